@@ -13,12 +13,15 @@ What is PROVED below (the model follows the code after props/C30/fix_series):
    negative, and a non-derived old type has the natural bounds lb = 0, ub = size): `lb_ub_extent_eq_spec_indexed`,
    `_hindexed`, `_indexed_block`, `_hindexed_block` (every branch of create_indexed / create_hindexed, incl. zero-length
    blocks, old lb ≠ 0, the contiguous shortcut), `_struct` (every member satisfies the spec), `_subarray_ndims1`,
-   `_vector_zero_blocklength`, `resized_lb_ub_eq_spec`, `dup_layout_eq`;
+   `resized_lb_ub_eq_spec`, `dup_layout_eq`;
+ * closed under nesting for the indexed family: `lb_ub_extent_eq_spec_idx_trees` — by induction on the tree, for every tree
+   made of basic types, indexed / hindexed / *_block, resized (extent ≥ 0) and dup, at any depth: lb and ub are MPI's;
  * the size of every MPI placement (`spec_size_place`), the round trip of the code's own pack/unpack on the bytes its
    walk selects (`pack_unpack_roundtrip_partial`, ∀ objects, ∀ counts);
  * the witnesses of the fixed defects as regression theorems (`…_regression`, `decide`): the fixed `build` gives MPI's
    values on them (the values of the old code are quoted in each docstring; the library replays them from corpus.txt).
-NOT proved (weaker than DESIGN §8 C30): ∀-tree `size_eq_spec`, lb/ub of contiguous / vector / hvector / n-dimensional
+NOT proved (weaker than DESIGN §8 C30): the closure for trees containing struct / vector / contiguous / subarray nodes,
+∀-tree `size_eq_spec`, lb/ub of contiguous / vector / hvector / n-dimensional
 subarray for all arguments, `walk = Spec.bytesOf`: covered by the differential check only.  Still false on the code
 (findings kept): true extent (`true-extent`), uncommitted old type of a ≥ 2-dimensional subarray (`valid-type-rejected`).
 -/
@@ -216,6 +219,109 @@ theorem lb_ub_extent_eq_spec_subarray_ndims1 (sz sub start : Int) (c : Bool) (t 
         rw [hE]
         simp [mkResized, Obj.info, Spec.layout]
 
+/-! ### closure along trees: the indexed family over the basic types -/
+
+/-- trees made of the basic types with indexed / hindexed / indexed_block / hindexed_block (any arguments), resized (to a
+    non-negative extent) and dup, nested to any depth -/
+inductive IdxTree : Tree → Prop
+  | basic (s : Nat) : IdxTree (.basic s)
+  | indexed (bs : List (Int × Int)) (t : Tree) : IdxTree t → IdxTree (.indexed bs t)
+  | hindexed (bs : List (Int × Int)) (t : Tree) : IdxTree t → IdxTree (.hindexed bs t)
+  | indexedBlock (bl : Int) (ds : List Int) (t : Tree) : IdxTree t → IdxTree (.indexedBlock bl ds t)
+  | hindexedBlock (bl : Int) (ds : List Int) (t : Tree) : IdxTree t → IdxTree (.hindexedBlock bl ds t)
+  | resized (lb ext : Int) (t : Tree) : 0 ≤ ext → IdxTree t → IdxTree (.resized lb ext t)
+  | dup (t : Tree) : IdxTree t → IdxTree (.dup t)
+
+/-- "the object satisfies the spec": the hypotheses of the per-constructor theorems -/
+def Good (t : Tree) (o : Obj) : Prop :=
+  o.info.lb = (Spec.layout t).lb ∧ o.info.ub = (Spec.layout t).ub ∧ 0 ≤ (Spec.layout t).extent ∧
+  (o.info.derived = false → o.info.lb = 0 ∧ o.info.ub = o.info.size ∧ 0 ≤ o.info.size)
+
+theorem good_indexed (bs : List (Int × Int)) (t : Tree) (o r : Obj) (hb : build t = some o) (hg : Good t o)
+    (hr : build (.indexed bs t) = some r) : Good (.indexed bs t) r := by
+  obtain ⟨glb, gub, gext, gnat⟩ := hg
+  have hn : o.info.derived = false → o.info.lb = 0 ∧ o.info.ub = o.info.size := fun h => ⟨(gnat h).1, (gnat h).2.1⟩
+  have hlu := lb_ub_extent_eq_spec_indexed bs t o r hb glb gub gext hn hr
+  have hr' : mkIndexed bs o = some r := by simpa [build, hb] using hr
+  have he : 0 ≤ o.info.extent := by rw [info_extent_eq t o glb gub]; exact gext
+  have hle : (Spec.layout t).lb ≤ (Spec.layout t).ub := by simp only [Spec.Layout.extent] at gext; omega
+  refine ⟨hlu.1, hlu.2, ?_, mkIndexed_natural bs o r he hn hr'⟩
+  simp only [Spec.layout, Spec.place, Spec.Layout.extent]
+  exact Int.sub_nonneg_of_le (listMin_le_listMax _ _ _ hle)
+
+theorem good_hindexed (bs : List (Int × Int)) (t : Tree) (o r : Obj) (hb : build t = some o) (hg : Good t o)
+    (hr : build (.hindexed bs t) = some r) : Good (.hindexed bs t) r := by
+  obtain ⟨glb, gub, gext, gnat⟩ := hg
+  have hn : o.info.derived = false → o.info.lb = 0 ∧ o.info.ub = o.info.size := fun h => ⟨(gnat h).1, (gnat h).2.1⟩
+  have hlu := lb_ub_extent_eq_spec_hindexed bs t o r hb glb gub gext hn hr
+  have hr' : mkHindexed bs o = some r := by simpa [build, hb] using hr
+  have he : 0 ≤ o.info.extent := by rw [info_extent_eq t o glb gub]; exact gext
+  have hle : (Spec.layout t).lb ≤ (Spec.layout t).ub := by simp only [Spec.Layout.extent] at gext; omega
+  refine ⟨hlu.1, hlu.2, ?_, mkHindexed_natural bs o r he hn hr'⟩
+  simp only [Spec.layout, Spec.place, Spec.Layout.extent]
+  exact Int.sub_nonneg_of_le (listMin_le_listMax _ _ _ hle)
+
+/-- **lb_ub_extent_eq_spec on the indexed family, by induction on the tree** (any depth, any block lists, any resizes to a
+    non-negative extent): whenever the constructor calls succeed, the lb and ub of the resulting datatype are MPI's -/
+theorem lb_ub_extent_eq_spec_idx_trees (t : Tree) (h : IdxTree t) : ∀ o, build t = some o → Good t o := by
+  induction h with
+  | basic s =>
+    intro o ho
+    simp only [build, Option.some.injEq] at ho
+    subst ho
+    simp [Good, basicObj, Obj.info, Spec.layout, Spec.Layout.extent]
+  | indexed bs t _ ih =>
+    intro r hr
+    cases hb : build t with
+    | none => simp [build, hb] at hr
+    | some o => exact good_indexed bs t o r hb (ih o hb) hr
+  | hindexed bs t _ ih =>
+    intro r hr
+    cases hb : build t with
+    | none => simp [build, hb] at hr
+    | some o => exact good_hindexed bs t o r hb (ih o hb) hr
+  | indexedBlock bl ds t _ ih =>
+    intro r hr
+    cases hb : build t with
+    | none => simp [build, hb] at hr
+    | some o =>
+      have hr' : build (.indexed (ds.map (fun d => (bl, d))) t) = some r := by simp only [build] at hr ⊢; exact hr
+      have hs : Spec.layout (.indexedBlock bl ds t) = Spec.layout (.indexed (ds.map (fun d => (bl, d))) t) := by
+        simp only [Spec.layout, List.flatMap_map]
+      have := good_indexed _ t o r hb (ih o hb) hr'
+      simp only [Good, hs]
+      exact this
+  | hindexedBlock bl ds t _ ih =>
+    intro r hr
+    cases hb : build t with
+    | none => simp [build, hb] at hr
+    | some o =>
+      have hr' : build (.hindexed (ds.map (fun d => (bl, d))) t) = some r := by simp only [build] at hr ⊢; exact hr
+      have hs : Spec.layout (.hindexedBlock bl ds t) = Spec.layout (.hindexed (ds.map (fun d => (bl, d))) t) := by
+        simp only [Spec.layout, List.flatMap_map]
+      have := good_hindexed _ t o r hb (ih o hb) hr'
+      simp only [Good, hs]
+      exact this
+  | resized lb ext t hext _ ih =>
+    intro r hr
+    cases hb : build t with
+    | none => simp [build, hb] at hr
+    | some o =>
+      simp only [build, hb, Option.map_some, Option.some.injEq] at hr
+      subst hr
+      simp only [Good, mkResized, Obj.info, Spec.layout, Spec.Layout.extent]
+      exact ⟨trivial, trivial, by omega, fun h => by simp at h⟩
+  | dup t _ ih =>
+    intro r hr
+    cases hb : build t with
+    | none => simp [build, hb] at hr
+    | some o =>
+      simp only [build, hb, Option.map_some, Option.some.injEq] at hr
+      subst hr
+      have hg := ih o hb
+      simp only [Good, cloneObj_info, Spec.layout]
+      exact hg
+
 /-! ### regressions: the witnesses of the fixed defects (every one is replayed on the library by props/C30/corpus.txt) -/
 
 def slu (t : Tree) : Option (Int × Int × Int) := (build t).map (fun o => (o.info.size, o.info.lb, o.info.ub))
@@ -300,5 +406,12 @@ example : slu (.struct (.cons 0 40 (.basic 4) (.cons 2 8 (.indexed [(1, 1)] (.ba
     some (16, 0, 20) ∧
     specSlu (.struct (.cons 0 40 (.basic 4) (.cons 2 8 (.indexed [(1, 1)] (.basic 4)) (.cons 1 0 (.basic 8) .nil)))) =
     (16, 0, 20) := by decide
+
+/-- `lb_ub_extent_eq_spec_idx_trees` on a three-level tree with an old lb ≠ 0, a zero-length block, shuffled blocks, a resize -/
+example : IdxTree (.indexed [(0, 7), (2, 1), (1, 0)] (.resized 4 24 (.hindexedBlock 2 [8, 0] (.basic 4)))) :=
+  .indexed _ _ (.resized _ _ _ (by decide) (.hindexedBlock _ _ _ (.basic 4)))
+example : slu (.indexed [(0, 7), (2, 1), (1, 0)] (.resized 4 24 (.hindexedBlock 2 [8, 0] (.basic 4)))) = some (48, 4, 76) ∧
+    specSlu (.indexed [(0, 7), (2, 1), (1, 0)] (.resized 4 24 (.hindexedBlock 2 [8, 0] (.basic 4)))) = (48, 4, 76) := by
+  decide
 
 end SgVerif.C30
